@@ -21,6 +21,22 @@ pub fn replay(cases: &str, verdicts: &str) {
             let uniform = e.windows(2).all(|w| w[1] - w[0] == e[1] - e[0]);
             let g = guard(|| hist_bin_centers(&e).to_vec());
             v.check(g.as_ref().map(|r| all_eq(r, &exp)).unwrap_or(false), "hist_bin_centers", if uniform { "uniform" } else { "non-uniform" }, &c, json!(g.as_ref().map(|r| fjs(r))));
+            // midpoints at the extremes of the format (each expected value is exactly representable and follows from the definition
+            // (a + b) / 2): huge edges of opposite sign, a bin almost symmetric about zero, a huge first bin before unit bins
+            if v.cases % 50 == 1 || e.len() == 2 {
+                let big = 1.5 * 2f64.powi(1023);
+                let fixed: Vec<(Vec<f64>, Vec<f64>, &str)> = vec![
+                    (vec![-big, big], vec![0.0], "opposite-sign huge edges"),
+                    (vec![-big, 0.0, big], vec![-big / 2.0, big / 2.0], "opposite-sign huge edges"),
+                    (vec![-1.0, 1.0 + f64::EPSILON], vec![f64::EPSILON / 2.0], "bin almost symmetric about zero"),
+                    (vec![-(2f64.powi(54)), 0.0, 1.0, 2.0, 3.0, 4.0], vec![-(2f64.powi(53)), 0.5, 1.5, 2.5, 3.5], "huge first bin"),
+                    (vec![0.0, 1.0, 2.0, 2f64.powi(60)], vec![0.5, 1.5, 2f64.powi(59) + 1.0], "huge last bin"),
+                ];
+                for (ed, ex, name) in fixed {
+                    let g = guard(|| hist_bin_centers(&ed).to_vec());
+                    v.check(g.as_ref().map(|r| all_eq(r, &ex)).unwrap_or(false), "hist_bin_centers", name, &json!({"edges": fjs(&ed), "expected": fjs(&ex)}), json!(g.as_ref().map(|r| fjs(r))));
+                }
+            }
             // real-valued (dyadic) edges: scaled and shifted copies
             let e2: Vec<f64> = e.iter().map(|t| t * 0.375 - 10.5).collect();
             let exp2: Vec<f64> = exp.iter().map(|t| t * 0.375 - 10.5).collect();
